@@ -38,10 +38,14 @@ func streamPaths(s *stream.Stream, c *streamCtx) error {
 		return err
 	}
 	// nested modules on disk
-	nested := []string{"nested", "pkg/nested"}
-	for _, n := range nested {
+	nested := []string{"nested", "pkg/nested", "sub/l0"}
+	for k, n := range nested {
 		os.MkdirAll(filepath.Join(root, n, "sub"), 0755)
-		os.WriteFile(filepath.Join(root, n, "go.mod"), []byte("module x\n"), 0644)
+		mod := "module x\n"
+		if k == 2 { // an empty go.mod is a module boundary too (the usual way to cut a directory out)
+			mod = ""
+		}
+		os.WriteFile(filepath.Join(root, n, "go.mod"), []byte(mod), 0644)
 	}
 	os.WriteFile(filepath.Join(root, "go.mod"), []byte("module example.com/m\n\ngo 1.23\n"), 0644)
 	cwd, _ := os.Getwd()
